@@ -11,7 +11,7 @@ from __future__ import annotations
 import sys
 import threading
 
-LINE_FILES = ("color_service.py", "registry.py")
+LINE_FILES = ("color_service.py", "registry.py", "converter.py", "text_conversion_service.py")
 
 
 class Baton:
